@@ -189,7 +189,8 @@ pub(super) struct BlockData {
     pub(super) double_merkle_tree: Option<DoubleMerkleTree>,
     /// Cache of [`SliceCommitment`]s verified earlier.
     ///
-    /// Lets [`ValidatedShred::try_new`] short-circuit verification for the same slice.
+    /// Lets [`ValidatedShred::try_new`] short-circuit verification for the same slice
+    /// (each entry remembers the signature that was verified for it).
     /// This is also what allows us to detect leader equivocation.
     pub(super) commitment_cache: BTreeMap<SliceIndex, SliceCommitment>,
 }
